@@ -171,6 +171,56 @@ def _guards(fn, pathparam):
     return res
 
 
+def _helper_guards(m, fi, pathparam):
+    """[(call node, api, tests the ~-expanded path?)] for calls of repository helpers that are no-clobber guards: the helper,
+    partially evaluated with the caller's path P and overwrite=False, raises OSError exactly when os.path.lexists(P) (or of
+    the expanded P) holds, and never raises with overwrite=True."""
+    import re as _re
+    from ..vg import Const, Evaluator, Obj, show
+    out = []
+    for c in calls_in(fi.node):
+        gs = m.resolve_call(fi, c) or ()
+        if len(gs) != 1 or gs[0].cls:
+            continue
+        g = gs[0]
+        names = [a.id if isinstance(a, ast.Name) else None for a in c.args] + [
+            k.value.id if isinstance(k.value, ast.Name) else None for k in c.keywords]
+        if pathparam not in names or 'overwrite' not in names:
+            continue
+
+        def bind(ow):
+            def val(e):
+                if isinstance(e, ast.Name) and e.id == pathparam:
+                    return Obj('str', {}, 'P')
+                if isinstance(e, ast.Name) and e.id == 'overwrite':
+                    return Const(ow)
+                if isinstance(e, ast.Constant):
+                    return Const(e.value)
+                raise AnalysisError('C14.R1', fi.qualname, f'argument `{norm(e)}` of the guard helper not understood')
+            return [val(a) for a in c.args], {k.arg: val(k.value) for k in c.keywords}
+        res = {}
+        for ow in (False, True):
+            a_, k_ = bind(ow)
+            ev = Evaluator(m)
+            o = ev.run(g, a_, k_)
+            def unsat(c_):
+                from ..vg import BoolT
+                if isinstance(c_, Const):
+                    return not c_.v
+                if isinstance(c_, BoolT) and c_.op == 'and':
+                    return any(unsat(a2) for a2 in c_.args)
+                return False
+            res[ow] = [(show(ev.conj(pc), 300), n) for pc, n, _ in o.raises if not any(unsat(c_) for c_ in pc)]
+        if res[True]:
+            continue
+        conds = res[False]
+        if len(conds) == 1 and conds[0][1] in ('OSError', 'FileExistsError', 'IOError'):
+            mt = _re.fullmatch(r'bool\(os\.path\.(lexists|exists|isfile)\((P|os\.path\.expanduser\(P\))\)\)', conds[0][0])
+            if mt:
+                out.append((c, mt.group(1), mt.group(2) != 'P'))
+    return out
+
+
 def r1(ctx):
     for fmt, fi in _writers(ctx):
         fn = fi.node
@@ -186,6 +236,9 @@ def r1(ctx):
         weak = [api for g, api in guards if api != 'lexists']
         gnodes = [i for i, st in cfg.stmt.items()
                   if cfg.kind[i] == 'test' and any(st is g for g in lex)]
+        hguards = _helper_guards(ctx.model, fi, pathparam)
+        gnodes += [_node_of(cfg, c) for c, api, exp in hguards if api == 'lexists']
+        weak += [api for c, api, exp in hguards if api != 'lexists']
         tnodes = [_node_of(cfg, c) for c in creates]
         # the guard and the creating call must speak about the same path: the tested name itself is what is created,
         # with "~" expanded on both sides or on neither
@@ -199,6 +252,8 @@ def r1(ctx):
             if gnodes and cfg.must_pass(gnodes, rn):
                 pre_expanded, rebinds = True, []
         guard_exp = pre_expanded or all(GUARD_EXPANDED.get(id(g), False) for g in lex) if lex else False
+        if hguards and not lex:
+            guard_exp = pre_expanded or all(exp for c, api, exp in hguards if api == 'lexists')
         for c in creates:
             dest = c._vp[2]
             if not (isinstance(dest, ast.Name) and dest.id == pathparam) and not _is_expanduser_of(dest, pathparam):
@@ -402,6 +457,36 @@ def _eval_exten(fn):
     return tup(ex['read']), tup(ex['write'])
 
 
+EXT_UNIVERSE = ('.ds9', '.reg', '.crtf', '.fits', '.fit', '.fts', '.txt', '.dat', '.fits.bz2')
+
+
+def _probe_exten(m, ident):
+    """(read extensions, write extensions) of an identifier function, observed: the identifier is partially evaluated on
+    constant file names `x<ext>` and `x<ext>.gz` (upper-cased too); an extension counts when the answer is the constant
+    True (for 'read' that is the extension shortcut, taken before the content is looked at)."""
+    from ..vg import Const, Evaluator
+    out = {}
+    for meth in ('read', 'write'):
+        acc = []
+        for ext in EXT_UNIVERSE:
+            for e in (ext, ext + '.gz'):
+                vals = []
+                for name in ('x' + e, 'X' + e.upper()):
+                    try:
+                        o = Evaluator(m).run(ident, [Const(meth), Const(name)], {})
+                    except AnalysisError:
+                        return None
+                    first = o.returns[0][1] if o.returns else None
+                    vals.append(len(o.returns) == 1 and not o.raises and isinstance(first, Const) and first.v is True
+                                and not o.returns[0][0])
+                if all(vals):
+                    acc.append(e)
+                elif any(vals):
+                    return None        # case-sensitive: reported by R4b's write clause
+        out[meth] = tuple(acc)
+    return out['read'], out['write']
+
+
 def _first_output_const(fn, var='output'):
     for st in stmts_of(fn):
         if isinstance(st, ast.Assign) and isinstance(st.targets[0], ast.Name) \
@@ -472,8 +557,8 @@ def r4(ctx):
     m = ctx.model
     for fmt in FORMATS:
         ident = m.registered('identify', fmt)
-        ex = _eval_exten(ident.node)
-        ctx.need(ex is not None, ident.qualname, 'extension table not evaluable')
+        ex = _probe_exten(m, ident)
+        ctx.need(ex is not None, ident.qualname, 'extension behaviour not reducible on constant file names')
         rd, wr = ex
         if set(wr) <= set(rd) and wr:
             ctx.ok(f'{ident.qualname}:extensions', f'write {wr} within read {rd}')
@@ -504,12 +589,13 @@ def r4(ctx):
     # content signatures
     for fmt, headvar in (('ds9', None), ('crtf', None)):
         ident = m.registered('identify', fmt)
-        sig = None
-        for st in stmts_of(ident.node):
-            if isinstance(st, ast.Assign) and dotted(st.targets[0]) == 'signature' \
-                    and isinstance(st.value, ast.Constant):
-                sig = st.value.value
-        ctx.need(isinstance(sig, str), ident.qualname, 'signature constant not found')
+        # the content signature: the string constant the identifier compares what it reads from the file with
+        from ..vg import Cmp as _Cmp, Const as _K, Evaluator as _Ev, Obj as _O, walk_terms as _wt
+        o_ = _Ev(m).run(ident, [_K('read'), _O('path', {}, 'filepath')], {})
+        sigs = {x.rhs.v for _, v in o_.returns for x in _wt(v) if isinstance(x, _Cmp) and x.op == '==' and isinstance(x.rhs, _K)
+                and isinstance(x.rhs.v, str) and x.rhs.v.startswith('#')}
+        ctx.need(len(sigs) == 1, ident.qualname, f'content signature not identified ({sorted(sigs)})')
+        sig = sigs.pop()
         ser = m.registered('serialize', fmt)
         head = _emitted_head(ctx, fmt, ser)
         ctx.need(head is not None, ser.qualname, 'first line of the serialised text not determined')
@@ -580,7 +666,9 @@ def r4b(ctx):
                 probs.append(f'read: the content test is {content[:160]}; must be (signature read == constant) or (== its bytes)')
         # content branch (fits): opening the file as FITS succeeds -> True, fails with OSError -> False
         if fmt == 'fits':
-            tries = [n for n in ast.walk(ident.node) if isinstance(n, ast.Try)]
+            scopes_ = [ident.node] + [g.node for c in calls_in(ident.node) for g in (m.resolve_call(ident, c) or ())
+                                     if g.module == ident.module]
+            tries = [n for sc in scopes_ for n in ast.walk(sc) if isinstance(n, ast.Try)]
             okc = False
             for t in tries:
                 withs = [w for w in ast.walk(t) if isinstance(w, ast.With) and any(
@@ -744,14 +832,24 @@ def r5(ctx):
         ctx.bad(nf.qualname, 'no-raise', '_no_format_error does not end in raise IORegistryError',
                 nf.loc())
     icfg = CFG(idf.node, exceptions=False)
-    rets = [(i, st) for i, st in icfg.stmt.items() if icfg.kind[i] == 'stmt' and isinstance(st, ast.Return)
-            and isinstance(st.value, ast.Name)]
-    good = bool(rets)
+    # every way out of identify_format hands back a format taken from a registry key, or goes through _no_format_error
+    # (which always raises): a `return <name>` needs the `<name> is None -> _no_format_error` guard on every path to it
+    nf_nodes = [i for i, st in icfg.stmt.items() if icfg.kind[i] == 'stmt' and any(
+        (call_name(c) or '').endswith('_no_format_error') for c in calls_in(st))]
+    rets = [(i, st) for i, st in icfg.stmt.items() if icfg.kind[i] == 'stmt' and isinstance(st, ast.Return)]
+    good = bool(rets) and icfg.must_pass([EXIT], [i for i, _ in rets] + nf_nodes)
     for i, st in rets:
-        x = st.value.id
-        guards = [j for j, s2 in icfg.stmt.items() if icfg.kind[j] == 'test' and norm(s2.test).replace(' ', '') == f'{x}isNone'
-                  and any('_no_format_error' in norm(b) for b in s2.body)]
-        good = good and bool(guards) and icfg.must_pass([i], guards)
+        if i in nf_nodes:
+            continue
+        if isinstance(st.value, ast.Subscript):
+            continue                       # an element of the matching key
+        if isinstance(st.value, ast.Name):
+            x = st.value.id
+            guards = [j for j, s2 in icfg.stmt.items() if icfg.kind[j] == 'test' and norm(s2.test).replace(' ', '') == f'{x}isNone'
+                      and any('_no_format_error' in norm(b) for b in s2.body)]
+            good = good and bool(guards) and icfg.must_pass([i], guards)
+        else:
+            good = False
     if good:
         ctx.ok(idf.qualname, 'unidentified format raises')
     else:
@@ -808,7 +906,7 @@ def r5b(ctx):
     ctx.need(key_t is not None and len(rparams) == 3, regf.qualname, 'registry key tuple not found')
     fmt_pos = [e.id for e in key_t.elts].index(rparams[2])
     loopvars = {t.id for n_ in ast.walk(idf.node) if isinstance(n_, ast.For) for t in ast.walk(n_.target) if isinstance(t, ast.Name)}
-    picks = [st.value for st in ast.walk(idf.node) if isinstance(st, ast.Assign) and isinstance(st.value, ast.Subscript)
+    picks = [st.value for st in ast.walk(idf.node) if isinstance(st, (ast.Assign, ast.Return)) and isinstance(st.value, ast.Subscript)
              and isinstance(st.value.value, ast.Name) and st.value.value.id in loopvars]
     ctx.need(picks, idf.qualname, 'no `<key>[i]` selection of the format found')
     wrong = [p_ for p_ in picks if not (isinstance(p_.slice, ast.Constant) and p_.slice.value in (fmt_pos, fmt_pos - 3))]
